@@ -36,9 +36,10 @@ LEAVES = {
     'D': ['{"a": 1, "b": 2}', '{}', 'd', '{1: 10}'],
     'I': ['0', '1', '2', '(0 - 1)', '1.5', '5', '(0 - 4)', 'True'],          # index-like numbers
     'K': ['"a"', '"x"', '"zz"', '1', 's'],                                       # dict keys
+    'P': ['"l+"', '"(h)(e)"', '"[a-z]"', '"x|b"', '"L"', '"^h.*o$"', '"(a)|(b)"', '"z*"'],   # regex patterns of the modelled alphabet
 }
 REDUCED = {'N': ['2', '0.1', 'n'], 'S': ['"ab"', 's'], 'B': ['True', 'False'], 'O': ['None'], 'LN': ['[3, 1, 2]', 'l'], 'LS': ['["b", "a"]'],
-           'LL': ['[[1, 2], [3]]'], 'D': ['{"a": 1, "b": 2}', 'd'], 'I': ['1', '(0 - 1)'], 'K': ['"a"', '"x"']}
+           'LL': ['[[1, 2], [3]]'], 'D': ['{"a": 1, "b": 2}', 'd'], 'I': ['1', '(0 - 1)'], 'K': ['"a"', '"x"'], 'P': ['"l+"', '"(a)|(b)"']}
 
 PRODUCTIONS = [
     ('N', '{N} + {N}'), ('N', '{N} - {N}'), ('N', '{N} * {N}'), ('N', '{N} / {N}'), ('N', '{N} ** 2'), ('N', '{N} ** 0'), ('N', '{N} ** 3'),
@@ -49,6 +50,11 @@ PRODUCTIONS = [
     ('N', '{LL}[{I}][{I}]'), ('N', '{LN} | len'), ('N', '{S}.len()'), ('N', '({N})'), ('N', '{N} + {N} * {N}'), ('N', '{N} - {N} - {N}'),
     ('N', 'len({S}) / len({LN})'), ('N', 'len({LN}) / {N}'), ('N', 'len({S}) * len({S})'), ('N', 'len({S}) + len({LN}) - 1'),
     ('N', 'len({S}) ** 2'), ('N', '{N} / len({S})'), ('B', 'len({S}) / len({S}) == 1'), ('S', '{S} + len({S}) / 2'),
+    ('A', 'match({S}, {P})'), ('A', 'match_groups({S}, {P})'), ('T', 'match_all({S}, {P})'), ('A', 'match({S}, {P}, "i")'),
+    ('T', 'match_all({S}, {P}, "is")'), ('A', '{S} | match_groups({P}, "I")'), ('A', 'match({S} + {S}, {P}, None)'),
+    ('S', 'pretty({N})'), ('S', 'pretty({LN})'), ('S', 'pretty({D})'), ('S', 'pretty({S})'), ('S', 'pretty({B})'), ('S', 'pretty({LS}, "-")'),
+    ('S', 'pretty({D}, "; ")'), ('S', 'pretty({N} * 1000)'), ('S', 'pretty(123456 + {N})'), ('S', 'pretty(0 - 1234567)'), ('S', 'pretty({O})'),
+    ('S', 'pretty(12345678, ",")'),
     ('A', 'index_of({LN}, {N})'), ('A', 'get({D}, {K})'), ('A', '{N} if {B} else {S}'), ('A', '{B} and {N}'), ('A', '{N} or {S}'),
     ('A', '{O} or {N}'), ('A', '{S} and {O}'),
     ('S', '{S} + {S}'), ('S', '{S} + {N}'), ('S', '{S} + {B}'), ('S', '{S} + {O}'), ('S', 'str({N})'), ('S', 'str({B})'), ('S', 'str({O})'),
